@@ -42,7 +42,7 @@ def _judge(a, out):
 
 LIFE = C.Kind("client-life", impl=_impl, model=lambda a: "clife " + " ".join(a["acts"]), judge=_judge,
               classify=lambda a, o: f"{a['api']}:len{len(a['acts']) // 5 * 5}", nontrivial=lambda a, o: (a["api"], tuple(a["acts"])),
-              shrink=lambda a: [dict(a, acts=a["acts"][:i] + a["acts"][i + 1:]) for i in range(len(a["acts"]))])
+              shrink=lambda a: _shrunk(a))
 KINDS = {"client-life": LIFE}
 
 
@@ -87,6 +87,28 @@ def gen_any(rng):
     return {"api": rng.choice(["type1", "type2"]), "acts": acts}
 
 
+def _in_domain(acts):
+    """operations are only asked of a client that is connected (and, once the device has hung up, only further hang-ups until the
+    next disconnect): what an operation does on a client that was never connected is not part of the property or of the model"""
+    connected = dead = False
+    for a in acts:
+        if a in ("op", "opx") and (not connected or dead):
+            return False
+        if a == "opeof":
+            if not connected:
+                return False
+            dead = True
+        if a == "cok":
+            connected, dead = True, False
+        if a == "disc" or (a.startswith("with") and a != "withref"):
+            connected = False
+    return True
+
+
+def _shrunk(a):
+    return [c for c in (dict(a, acts=a["acts"][:i] + a["acts"][i + 1:]) for i in range(len(a["acts"]))) if _in_domain(c["acts"])]
+
+
 def _double(acts):
     c = False
     for a in acts:
@@ -102,7 +124,7 @@ def _double(acts):
 ANY = C.Kind("client-life-unrestricted", impl=_impl, model=lambda a: "clife " + " ".join(a["acts"]), judge=_judge,
              classify=lambda a, o: f"{a['api']}:{'connects-over-open-connection' if _double(a['acts']) else 'alternating'}:maxopen{max(int(x.split(':')[2]) for x in o.split(' '))}",
              nontrivial=lambda a, o: (a["api"], tuple(a["acts"])),
-             shrink=lambda a: [dict(a, acts=a["acts"][:i] + a["acts"][i + 1:]) for i in range(len(a["acts"]))])
+             shrink=lambda a: _shrunk(a))
 KINDS["client-life-unrestricted"] = ANY
 
 FIXED = [{"api": t, "acts": acts} for t in ("type1", "type2") for acts in (
